@@ -113,5 +113,18 @@ CLAIMS = {
         "technique": "Coq proof over a JSON inductive with an explicit set-order oracle + data obligation + correspondence on scratch registries",
         "design_ref": "DESIGN.md §4 C18",
     },
+    "C06": {
+        "text": "Proved: C06_only_rejects (for any national step, acceptance with validate_bban implies acceptance without), "
+                "C06_returns_true (the BBAN-level check never returns false: true or raises), C06_unaffected (no registered "
+                "algorithm => true); the algorithm registry (keys, class, accepts) is regenerated from the live "
+                "checksum.algorithms. The 22 published rules are Spec/NationalPublished.v (congruence forms, weight tables); the "
+                "implementation is compared against that extracted spec on spec-selected accepting inputs and perturbations for "
+                "every country, and against the line-by-line model. Per-country equivalence theorems model<->published rule: see "
+                "evidence obligation_names (partial: countries not listed there are covered by the spec-oracle stream only). "
+                "Found and fixed: returns False on success (6f07eec), BA registered as BT (6931682).",
+        "note": COMMON_NOTE + " Spec/NationalPublished.v is a hand transcription of the published rules (no network), cross-validated against the implementation on all 22 countries; Norway's '00' account rule is transcribed from the code.",
+        "technique": "Coq proof (structural theorems; per-country equivalences where listed) + extracted published-rule spec as oracle + correspondence",
+        "design_ref": "DESIGN.md §4 C06",
+    },
 }
 NOT_APPLICABLE = {}
